@@ -1959,7 +1959,11 @@ End Step.
 (* ================================================================== *)
 
 Lemma expand_clean b pc i : clean (expand b pc i).
-Proof. destruct i; reflexivity. Qed.
+Proof.
+  destruct i; try reflexivity.
+  (* ILazyGet k: [MLazyGetY k] for the yielding static, [MLazyGet k] otherwise; no lock micro-op *)
+  cbn [expand]. match goal with |- context [Nat.eqb ?k 2] => destruct (Nat.eqb k 2) end; reflexivity.
+Qed.
 
 Lemma expand_body_clean b l : forall pc, clean (expand_body_from b pc l).
 Proof.
